@@ -45,6 +45,17 @@ def auto_index_label_not_validated(w):
     return bool(bad) and all(e == 'absent' and kind == 'auto' for e, kind in bad)
 
 
+@predicate
+def label_slice_negative_step(w):
+    """C04: a label slice with a negative step on some axis: the stop position is shifted up (+1) as for
+    ascending slices, so the stop label (and its predecessor) are left out / the selection is empty."""
+    k = w['klass']
+    if w['what'] not in ('series_selection_mismatch', 'frame_selection_mismatch', 'frame_row_series_mismatch',
+                         'frame_column_series_mismatch', 'series_element_mismatch', 'frame_element_mismatch'):
+        return False
+    return k.get('row_step_negative') is True or k.get('col_step_negative') is True
+
+
 def _load_extra():
     """Per-property predicate modules sfmon/findings_cXX.py register themselves on import."""
     import glob
